@@ -338,10 +338,10 @@ def run_history(calls):
             continue
         rc = resolve(c, slots)
         exempt = {id(rc[k]) for k in EXEMPT_ARGS if rc.get(k) is not None}
-        try:
+        if "reader" in rc:
+            pick = None                                 # a live reader object: only the rebuilt-arguments run applies
+        else:                                           # (not even tried: pickling caches __slotnames__ on the classes)
             pick = base64.b64encode(pickle.dumps(rc, protocol=4)).decode()
-        except Exception:
-            pick = None                                 # e.g. a live reader object: only the rebuilt-arguments run applies
         before = {k: canon(v, exempt) for k, v in rc.items() if k not in EXEMPT_ARGS}
         ctx_before = ctx_cells()
         res, obj = exec_call(rc)
